@@ -156,7 +156,20 @@ def main():
                 rp = dict(kind=kind + "-upper", Nt=Nt, n0=n0, dt=dt,
                           y=[[z.real, z.imag] for z in y])
                 with ck.guarded("fourier-sum", "upper-half", rp, rp):
-                    F = DFunction(ta, y.copy()).get_Fourier_transform()
+                    # the data may reach the function at construction, by
+                    # assignment, or by modifying a real function in place
+                    how = ("constructed", "assigned", "apply_to_data")[
+                        (n0 + Nt + len(kind)) % 3]
+                    rp["data_arrive"] = how
+                    if how == "constructed":
+                        fobj = DFunction(ta, y.copy())
+                    elif how == "assigned":
+                        fobj = DFunction(ta, numpy.ones(Nt))
+                        fobj.data = y.copy()
+                    else:
+                        fobj = DFunction(ta, numpy.ones(Nt))
+                        fobj.apply_to_data(lambda dd: dd * y)
+                    F = fobj.get_Fourier_transform()
                     w = F.axis.data
                     # Hermitian extension f(-t) = conj f(t)
                     tt = numpy.concatenate([ta.data, -ta.data[1:]])
